@@ -274,6 +274,12 @@ def run(ctx):
     eng = mk_engine(contracts=ci.CONTRACTS, inline=ci.INLINE, field_classes=ci.FIELD_CLASSES)
     ctx.verify(eng, ci.CONTRACTS, min_obligations={c.key: 5 for c in ci.CONTRACTS})
     ctx.verify(ci.init_engine(), ci.VERIFY_INIT)
+    key, obs, info = ci.call_obligations()
+    for u in info.get("unsupported", []):
+        ctx.unsupported.append((key, u))
+    if len(obs) < 5 and not info.get("unsupported"):
+        ctx.checker_errors.append(f"only {len(obs)} connect-by-call obligations")
+    ctx.discharge(obs, key + " [keyword loop body]", info)
     off = ci.audit_ownership()
     ctx.obligations += 1
     if off:
